@@ -826,6 +826,9 @@ var whitelist = []target{
 	{"message", "DisconnectMessage", "Len"},
 	{"std:encoding/binary", "", "Uvarint"},
 	{"std:encoding/binary", "", "PutUvarint"},
+	{"message", "header", "Type"},
+	{"message", "header", "encode"},
+	{"message", "header", "decode"},
 	// C05: framing
 	{"service", "service", "peekMessageSize"},
 	// C14 (and C13's queue): power-of-two sizing, ring copy
